@@ -261,7 +261,8 @@ func (c spellCase) hints(asStrings bool) map[gozxing.EncodeHintType]interface{} 
 			return
 		}
 		if asStrings {
-			h[k] = fmt.Sprint(v)
+			// every form strconv.Atoi reads as that number
+			h[k] = fmt.Sprintf([]string{"%d", "%02d", "+%d", "%03d"}[(v+c.Level+int(k))%4], v)
 		} else {
 			h[k] = v
 		}
